@@ -41,9 +41,24 @@ def attr_hook(node, lin):
 
 
 def has_reaction_decide(test, st):
-    s = src(test)
-    if 'has_reaction()' in s or s.startswith('rxn == 0'):
-        return False
+    """the main scenario of the arithmetic: both operands are real reactions (X.has_reaction() holds, the operand is neither 0 nor None)"""
+    t = test
+    if isinstance(t, ast.UnaryOp) and isinstance(t.op, ast.Not):
+        v = has_reaction_decide(t.operand, st)
+        return None if v is None else not v
+    if isinstance(t, ast.BoolOp):
+        vs = [has_reaction_decide(v, st) for v in t.values]
+        if isinstance(t.op, ast.And):
+            return False if any(v is False for v in vs) else (True if all(v is True for v in vs) else None)
+        return True if any(v is True for v in vs) else (False if all(v is False for v in vs) else None)
+    if isinstance(t, ast.Call) and isinstance(t.func, ast.Attribute) and t.func.attr == 'has_reaction' and not t.args:
+        return True
+    if isinstance(t, ast.Compare) and len(t.ops) == 1 and isinstance(t.left, ast.Name):
+        c = t.comparators[0]
+        if isinstance(c, ast.Constant) and c.value in (0, None) and isinstance(t.ops[0], (ast.Eq, ast.Is)):
+            return False
+        if isinstance(c, ast.Constant) and c.value in (0, None) and isinstance(t.ops[0], (ast.NotEq, ast.IsNot)):
+            return True
     return None
 
 
@@ -68,7 +83,17 @@ def run(ctx):
     # helper summary: _math_compatible_reaction(copy=True) returns a copy
     mc = prog.method('Reaction', '_math_compatible_reaction', rel=RX)
     p_rxn, p_copy = mc.params[1], mc.params[2]
-    ps, _ = run_paths(mc.node, decide=lambda t, s: True if src(t).startswith(p_copy + ' or') or src(t) == p_copy else None)
+    from ..resolve import resolved, path_defs
+
+    def copy_on(t, st_):
+        # the test is the copy flag itself, or `copy or ...` (possibly through a local)
+        r = resolved(t, path_defs(st_), keep=set(mc.params))
+        if isinstance(r, ast.Name) and r.id == p_copy:
+            return True
+        if isinstance(r, ast.BoolOp) and isinstance(r.op, ast.Or) and any(isinstance(v, ast.Name) and v.id == p_copy for v in r.values):
+            return True
+        return None
+    ps, _ = run_paths(mc.node, decide=copy_on)
     rets = [p for p in ps if not p.raised]
     if rets and all(p.ret is not None and p.ret.pretty().startswith(p_rxn + '.copy(') for p in rets):
         d1.ok('Reaction._math_compatible_reaction', 'with copy=True returns rxn.copy(basis) on all %d normal paths' % len(rets), mc)
@@ -113,11 +138,17 @@ def run(ctx):
         d1.fail('Reaction._math_compatible_reaction', 'helper-mutates-operand',
                 'on a path where the operand has not been copied the helper %s: a += b / a - b change b' % touched[1], mc, touched[0].stmt)
     # ... and raises when the reactants differ
-    raises_on_idx = False
-    for n in ast.walk(mc.node):
-        if isinstance(n, ast.If) and '_reactant_index' in src(n.test) and isinstance(n.test, ast.Compare) \
-                and isinstance(n.test.ops[0], ast.NotEq) and any(isinstance(b, ast.Raise) for b in n.body):
-            raises_on_idx = True
+    # (every normal return has established that the reactant indices are equal)
+    from ..pathcond import implied as _implied
+    normal = [p for p in all_ps if not p.raised]
+    raises_on_idx = bool(normal)
+    for p in normal:
+        ne = _implied(p.conds, lambda t: isinstance(t, ast.Compare) and len(t.ops) == 1 and isinstance(t.ops[0], ast.NotEq)
+                      and '_reactant_index' in src(t.left) and '_reactant_index' in src(t.comparators[0]))
+        eq = _implied(p.conds, lambda t: isinstance(t, ast.Compare) and len(t.ops) == 1 and isinstance(t.ops[0], ast.Eq)
+                      and '_reactant_index' in src(t.left) and '_reactant_index' in src(t.comparators[0]))
+        if not (ne is False or eq is True):
+            raises_on_idx = False
     if raises_on_idx:
         d2.ok('Reaction._math_compatible_reaction', 'raises unless self._reactant_index == rxn._reactant_index', mc)
     else:
